@@ -10,7 +10,9 @@ Transport variants: the TCP harness is parameterised by a ``Variant`` object cre
 healthy-client kwargs, raw faulty-peer factory, set-up fault kinds, link swarm, "set-up cannot have completed" rule).
 ``PlainTCP`` and ``TLSTCP`` (server ``ssl=``; healthy clients = real ``AsyncTCPNetworkClient(ssl=...)``; faulty client =
 reference ``vsim.tls.TLSPeer``; extra set-up faults: garbage instead of a ClientHello, stalled handshake -> handshake
-timeout, FIN / RST at a byte offset inside or right after the handshake).  Extra TLS oracle clause: no handler hook ran
+timeout, FIN / RST at a byte offset inside or right after the handshake).  Both variants: the faulty client may reset its
+connection in the same instant as (or 1-2 ticks after) the request its handler fault is planned on - everything it wrote is
+delivered first, then the RST - and the handler may close the client itself at that request.  Extra TLS oracle clause: no handler hook ran
 for a connection whose handshake cannot have completed (the server saw fewer bytes than the client's whole handshake).
 
 Oracle (exactly the property statement): serve_forever is still running; every healthy client got the correct
@@ -69,7 +71,10 @@ RULE = (
     "ExceptionGroup(ConnectionError+ClientClosedError+ValueError), ConnectionResetError, BrokenPipeError, ClientClosedError, "
     "TimeoutError, re-raised/constructed parse error, RuntimeError, OSError(EBADF)} x hook position {on_connection as coroutine, "
     "on_connection generator before/after its yield, handle before first yield, after n-th request before/after the answer, "
-    "while handling a thrown parse error or yielded-timeout error, on_disconnection} x TCP set-up fault {getpeername ENOTCONN "
+    "while handling a thrown parse error or yielded-timeout error, on_disconnection; TCP also: the handler closes the client itself at the "
+    "n-th request, before/after answering} x TCP: the faulty client ends with FIN, or RESETS its connection 0/1/2 ticks after its trigger write "
+    "(the request the hook fault is planned on, the bad line, its last request; 0 = request and RST reach the server in the same instant, so "
+    "the server closes a connection whose RST has already arrived: shutdown() -> ENOTCONN) x TCP set-up fault {getpeername ENOTCONN "
     "on the accepted socket, setsockopt error inside connect_accepted_socket (ENOTCONN/EINVAL/ECONNRESET), the listener's next 1-2 "
     "accept() calls fail with an errno the listener documents as survivable (15 'ignorable' ones incl. ECONNABORTED/EPROTO, 4 "
     "'capacity' ones: EMFILE/ENFILE/ENOMEM/ENOBUFS -> 0.1 s pause; names hard-coded in the check, not imported), peer RST right "
@@ -201,9 +206,13 @@ class Plan:
         self.forever = False  # ... and window_end is never: this client's handler always fails before its first yield
         self.window_end = 0.0
         self.fired_count = 0
+        # TCP: the client RESETS its connection this many ticks (1/64 s) after its trigger write (the request the handler
+        # fault is planned on / the bad line / its last scripted request); 0 = in the same instant: request and RST are
+        # found by the same select() call, the server closes a connection whose RST has already arrived.  None = FIN at the end.
+        self.rst_after: int | None = None
 
     def describe(self) -> dict:
-        return {k: getattr(self, k) for k in ("name", "position", "exc", "n", "post_send", "thrown", "setup", "setup_errno", "setup_k", "accept_errnos", "repeat", "forever", "start", "pre", "post", "gap", "fired")}
+        return {k: getattr(self, k) for k in ("name", "position", "exc", "n", "post_send", "thrown", "setup", "setup_errno", "setup_k", "accept_errnos", "repeat", "forever", "rst_after", "start", "pre", "post", "gap", "fired")}
 
 
 class ConnState:
@@ -244,6 +253,11 @@ def _draw_plan(world: World, name: str, positions: tuple[str, ...], setups: tupl
             r = world.choose("f.repeat", 3)  # 0 once | 1 every generator during the client's script | 2 always
             p.repeat = r > 0
             p.forever = r == 2
+        if p.position == "handle_close":
+            p.pre = max(p.pre, p.n)
+    if setups and p.setup is None:
+        r = world.choose("f.rst_after", 4)  # 0 FIN at the end | 1 RST in the same instant as the trigger write | 2, 3: 1-2 ticks later
+        p.rst_after = r - 1 if r else None
     return p
 
 
@@ -339,6 +353,17 @@ class TCPHandler(_HandlerCommon, AsyncStreamRequestHandler[str, str]):
             k += 1
             st.nreq += 1
             self._maybe(st, "handle_nth", post_send=False)
+            if plan is not None and plan.position == "handle_close" and not plan.fired and st.nreq == plan.n:
+                # not a failure of the hook: the handler gets rid of the client on this request (answers first or not)
+                plan.fired = True
+                plan.fired_at_gens = st.gens
+                self.world.fault("handler_closes_client")
+                self.world.probe("close@handle_nth")
+                self.world.log("handler_close", plan.name, plan.post_send)
+                if plan.post_send:
+                    await client.send_packet("R:" + req)
+                await client.aclose()
+                return
             await client.send_packet("R:" + req)
             st.served.append((req, gen))
             self._maybe(st, "handle_nth", post_send=True)
@@ -652,8 +677,8 @@ class TLSTCP(Variant):
 TCP_VARIANTS: dict[str, type[Variant]] = {"tcp": PlainTCP, "tls": TLSTCP}
 
 TCP_POSITIONS = {
-    "coro": ("on_conn_coro", "handle_pre", "handle_nth", "handle_thrown", "on_disc"),
-    "gen": ("on_conn_pre", "on_conn_post", "handle_pre", "handle_nth", "handle_thrown", "on_disc"),
+    "coro": ("on_conn_coro", "handle_pre", "handle_nth", "handle_thrown", "on_disc", "handle_close", "handle_nth"),
+    "gen": ("on_conn_pre", "on_conn_post", "handle_pre", "handle_nth", "handle_thrown", "on_disc", "handle_close", "handle_nth"),
 }
 
 
@@ -744,20 +769,41 @@ def _h_tcp(world: World, variant_name: str) -> None:
 
             return _w
 
+        def rst() -> None:
+            # abortive close right behind what was written: everything the client sent before has arrived (the receive
+            # queue survives the RST: data first, then ECONNRESET), whatever the link does to ordinary traffic
+            if state.get("dead") or "peer" not in state:
+                return
+            sock = state["peer"].sock
+            if sock.tx_pipe is not None:
+                sock.tx_pipe.deliver()
+            world.fault("rst_at")
+            world.probe(f"rst_after_trigger+{plan.rst_after}")
+            state["peer"].reset()
+            state["dead"] = True
+
         seq = 0
+        t_trigger: float | None = None  # time of the write the RST follows
         if shape == "gen":
             t += plan.gap * U
             world.at(t, write(f"{plan.name}-hello\n".encode()))
+            t_trigger = t
         for _ in range(plan.pre):
             t += plan.gap * U
             world.at(t, write(f"{plan.name}-{seq}\n".encode()))
             seq += 1
+            if plan.position not in ("handle_nth", "handle_close") or seq <= plan.n:
+                t_trigger = t
         if plan.position == "handle_thrown":
             if plan.thrown == "parse":
                 t += plan.gap * U
                 world.at(t, write(b"\xff\xfebad\n"))
+                t_trigger = t
             else:
                 t += 1.0  # longer than the handler's 0.5 s yielded timeout
+                t_trigger = None  # the trigger is the time-out itself: nothing to reset behind
+        if plan.rst_after is not None and t_trigger is not None:
+            world.at(t_trigger + plan.rst_after * U, rst)  # scheduled after the write of the same instant: runs after it
         for _ in range(plan.post):
             t += plan.gap * U
             world.at(t, write(f"{plan.name}-{seq}\n".encode()))
